@@ -61,6 +61,10 @@ type smtpEnv struct {
 	hookStored map[string]inboundRepl // by subject
 	failBoxes  []string               // mailboxes whose AddMessage fails
 	debug      bool                   // config.SMTP.Debug (-netdebug)
+	tls        bool                   // config.SMTP.TLSEnabled (with certFile / keyFile; c03_tls.go)
+	force      bool                   // config.SMTP.ForceTLS
+	certFile   string
+	keyFile    string
 }
 
 var quietStdout sync.Once
@@ -108,8 +112,13 @@ func (e *smtpEnv) build() (*smtpStack, error) {
 	root.SMTP.MaxMessageBytes = e.maxBytes
 	root.SMTP.Domain = "inbucket.test"
 	root.SMTP.Timeout = 20 * time.Second
-	root.SMTP.TLSEnabled = false
-	root.SMTP.ForceTLS = false
+	root.SMTP.TLSEnabled = e.tls
+	root.SMTP.ForceTLS = e.force
+	if e.tls || e.force {
+		root.SMTP.TLSCert = e.certFile
+		root.SMTP.TLSPrivKey = e.keyFile
+		root.SMTP.Addr = "127.0.0.1:0"
+	}
 	root.SMTP.Debug = e.debug // -netdebug: the session dumps its traffic (fmt.Printf); must not change a single reply or stored byte
 	if e.debug {
 		quietStdout.Do(func() {
